@@ -387,3 +387,81 @@ Definition astep (impl : bool) (vals : list N) (k : gkey) (s : astate) (o : aop)
 Definition arun (impl : bool) (vals : list N) (k : gkey) (ops : list aop) (s : astate) : astate :=
   fold_left (astep impl vals k) ops s.
 Definition ainit : astate := mkas 0 ∅ None 0.
+
+(** * histories over one ICS-20 grant (granter, grantee, MsgTransfer): approve with
+    SEVERAL allocations (one per channel, several denominations each), increase /
+    decrease of one (channel, denomination), revoke, native grant, spends per
+    channel and denomination, time.  The property's accounting is kept per
+    (channel, denomination): what the signer's calls granted since the allowance
+    was last (re)defined ([None] = the unbounded sentinel 2^256-1) and what the
+    grantee's transfers that took effect have spent since then. *)
+(** the limit the first allocation of channel [ch] leaves for denomination [d] (0: nothing) *)
+Definition remaining_transfer (allocs : list alloc) (ch d : N) : Z :=
+  match find_alloc allocs ch with Some a => amount_of d (a_limits a) | None => 0 end.
+
+Inductive top :=
+| TApprove (allocs : list alloc) | TIncrease (ch d : N) (amt : Z) | TDecrease (ch d : N) (amt : Z) | TRevoke
+| TSpend (ch d : N) (amt : Z) (recv : N) (msg_ok : bool)
+| TSet (g : grant) | TTick (dt : Z).
+
+Record tstate := mkts { t_now : Z; t_G : gstore; t_granted : N -> N -> option Z; t_spent : N -> N -> Z }.
+
+Definition upd2 {A} (f : N -> N -> A) (ch d : N) (v : A) : N -> N -> A :=
+  fun ch' d' => if N.eqb ch ch' && N.eqb d d' then v else f ch' d'.
+(** an allowance whose remaining part is exactly the sentinel is unbounded *)
+Definition norm_granted (g spent : Z) : option Z := if g - spent =? MAXU then None else Some g.
+(** what an approve (or a native grant) with these allocations grants: exactly the amounts given, per channel and denomination *)
+Definition granted_of_allocs (allocs : list alloc) : N -> N -> option Z :=
+  fun ch d => norm_granted (remaining_transfer allocs ch d) 0.
+Definition zero2 : N -> N -> Z := fun _ _ => 0.
+Definition nothing_granted : N -> N -> option Z := fun _ _ => Some 0.
+
+Definition tstep (impl : bool) (ce : N -> bool) (k : gkey) (s : tstate) (o : top) : tstate :=
+  let now := t_now s in
+  let G := t_G s in
+  match o with
+  | TApprove allocs =>
+      let '(G1, st) := ics_approve now ce G k allocs in
+      match st with SOk => mkts now G1 (granted_of_allocs allocs) zero2 | _ => s end
+  | TIncrease ch d amt =>
+      let '(G1, st) := ics_change true now G k ch d amt in
+      match st with
+      | SOk => match t_granted s ch d with
+               | Some g => mkts now G1 (upd2 (t_granted s) ch d (norm_granted (g + amt) (t_spent s ch d))) (t_spent s)
+               | None => mkts now G1 (t_granted s) (t_spent s)
+               end
+      | _ => s end
+  | TDecrease ch d amt =>
+      let '(G1, st) := ics_change false now G k ch d amt in
+      match st with
+      | SOk => match t_granted s ch d with
+               | Some g => mkts now G1 (upd2 (t_granted s) ch d (norm_granted (g - amt) (t_spent s ch d))) (t_spent s)
+               | None => mkts now G1 (upd2 (t_granted s) ch d (norm_granted (MAXU - amt) 0)) (upd2 (t_spent s) ch d 0)
+               end
+      | _ => s end
+  | TRevoke =>
+      let '(G1, st) := ics_revoke now G k in
+      match st with SOk => mkts now G1 nothing_granted zero2 | _ => s end
+  | TSpend ch d amt recv msg_ok =>
+      let '(G1, eff, _) := transfer_spend impl now G k ch d amt recv msg_ok in
+      if eff then
+        match t_granted s ch d with
+        | Some g => mkts now G1 (upd2 (t_granted s) ch d (norm_granted g (t_spent s ch d + amt)))   (* the sentinel is recognised by value *)
+                         (upd2 (t_spent s) ch d (t_spent s ch d + amt))
+        | None => mkts now G1 (t_granted s) (t_spent s)
+        end
+      else mkts now G1 (t_granted s) (t_spent s)
+  | TSet g =>
+      mkts now (<[k := g]> G) (match g_auth g with ATransfer al => granted_of_allocs al | _ => nothing_granted end) zero2
+  | TTick dt => mkts (now + Z.max 0 dt) G (t_granted s) (t_spent s)
+  end.
+
+Definition trun (impl : bool) (ce : N -> bool) (k : gkey) (ops : list top) (s : tstate) : tstate :=
+  fold_left (tstep impl ce k) ops s.
+Definition tinit : tstate := mkts 0 ∅ nothing_granted zero2.
+(** what the store holds for (channel, denomination) under the key *)
+Definition trem (G : gstore) (k : gkey) (ch d : N) : Z :=
+  match G !! k with
+  | Some g => match g_auth g with ATransfer al => remaining_transfer al ch d | _ => 0 end
+  | None => 0
+  end.
